@@ -45,6 +45,8 @@ const FLAGS: [&str; 5] = ["CF", "ZF", "SF", "OF", "DF"];
 pub struct St {
     pub gpr: [u64; 16],
     pub fl: [u8; 5],
+    /// parity flag: an input only (read by jp/jnp/setp/cmovp; never compared afterwards)
+    pub pf: u8,
     pub xmm: [[u8; 16]; 16],
     pub xmm_listed: Vec<usize>,
     pub mem: Vec<u8>, // WIN_SIZE bytes or empty
@@ -234,7 +236,7 @@ pub fn gen_state(inst: &Inst, rng: &mut Rng) -> St {
     let pfx = ins["pfx"].as_str().unwrap();
     let ops: Vec<Value> = ins["ops"].as_array().unwrap().clone();
     let nregs = if mode == 64 { 16 } else { 8 };
-    let mut st = St { gpr: [0; 16], fl: [0; 5], xmm: [[0; 16]; 16], xmm_listed: Vec::new(), mem: Vec::new(), opv: json!([]) };
+    let mut st = St { gpr: [0; 16], fl: [0; 5], pf: 0, xmm: [[0; 16]; 16], xmm_listed: Vec::new(), mem: Vec::new(), opv: json!([]) };
     let same = rng.chance(1, 12);
     let common = interesting(rng, w);
     for i in 0..nregs {
@@ -246,6 +248,7 @@ pub fn gen_state(inst: &Inst, rng: &mut Rng) -> St {
     if !STRING_MN.contains(&mn.as_str()) && rng.chance(3, 4) {
         st.fl[4] = 0;
     }
+    st.pf = rng.bool() as u8;
     // XMM registers in play
     for o in &ops {
         if o["k"] == "xmm" {
@@ -508,17 +511,19 @@ fn st_json(st: &St, mode: u32) -> Value {
     for (k, f) in FLAGS.iter().enumerate() {
         fl.insert(f.to_string(), json!(st.fl[k]));
     }
+    fl.insert("PF".to_string(), json!(st.pf));
     json!({"regs": regs, "fl": fl, "xmm": xmm, "mem": st.mem, "membase": limbs(WIN, mode as usize), "opv": st.opv})
 }
 
 fn st_from_json(v: &Value, mode: u32) -> St {
-    let mut st = St { gpr: [0; 16], fl: [0; 5], xmm: [[0; 16]; 16], xmm_listed: Vec::new(), mem: Vec::new(), opv: v.get("opv").cloned().unwrap_or_else(|| json!([])) };
+    let mut st = St { gpr: [0; 16], fl: [0; 5], pf: 0, xmm: [[0; 16]; 16], xmm_listed: Vec::new(), mem: Vec::new(), opv: v.get("opv").cloned().unwrap_or_else(|| json!([])) };
     for r in v["regs"].as_array().unwrap() {
         st.gpr[reg_index(mode, r["n"].as_str().unwrap())] = from_limbs(&r["v"]);
     }
     for (k, f) in FLAGS.iter().enumerate() {
         st.fl[k] = v["fl"][*f].as_u64().unwrap() as u8;
     }
+    st.pf = v["fl"]["PF"].as_u64().unwrap_or(0) as u8;
     for x in v["xmm"].as_array().unwrap() {
         let idx: usize = x["n"].as_str().unwrap()[3..].parse().unwrap();
         st.xmm_listed.push(idx);
@@ -622,6 +627,7 @@ fn lifted_run(inst: &Inst, st: &St) -> Value {
     for (k, f) in FLAGS.iter().enumerate() {
         state.set_scalar(*f, il::const_(st.fl[k] as u64, 1));
     }
+    state.set_scalar("PF", il::const_(st.pf as u64, 1));
     for b in ["fs_base", "gs_base", "ds_base", "es_base", "cs_base", "ss_base"] {
         state.set_scalar(b, il::const_(0, w));
     }
